@@ -8,6 +8,7 @@ Chart.notes_per_second (successful calls); setattr/delattr probes on every event
 from __future__ import annotations
 
 import copy
+import hashlib
 from datetime import timedelta
 
 from vmon import contracts, gen, harness, model, observe
@@ -205,7 +206,11 @@ def all_events(chart) -> list:
 
 
 def state(chart, twin):
-    return observe.digest(observe.observe(chart)), bool(chart == twin), bool(twin == chart)
+    # canonical observation + equality with the twin + the ORDER-SENSITIVE public views (iteration order of the
+    # instrument map and of each difficulty map, str() and repr() of the chart)
+    order = [(i.name, [d.name for d in m]) for i, m in chart.instrument_tracks.items()]
+    rendered = hashlib.sha256((str(chart) + "\x00" + repr(chart)).encode("utf-8", "surrogatepass")).hexdigest()
+    return observe.digest(observe.observe(chart)), bool(chart == twin), bool(twin == chart), order, rendered
 
 
 def describe_change(before, after) -> str:
@@ -218,7 +223,11 @@ def describe_change(before, after) -> str:
                 if k == "keys":
                     return f"instrument map key structure changed from {a[k]} to {b[k]}"
                 return f"observation section '{k}' changed"
-    return f"equality with the twin changed from (chart==twin, twin==chart) = {before[1:]} to {after[1:]}"
+    if before[3] != after[3]:
+        return f"iteration order of chart.instrument_tracks changed from {before[3]} to {after[3]}"
+    if before[1:3] == after[1:3] and before[4] != after[4]:
+        return "str(chart) / repr(chart) changed"
+    return f"equality with the twin changed from (chart==twin, twin==chart) = {before[1:3]} to {after[1:3]}"
 
 
 # ------------------------------------------------------------------------------------------ assignment probes
@@ -329,7 +338,7 @@ def run_case(rec, case: dict) -> None:
             tw = [k for k in a["tracks"] if a["tracks"][k] != b["tracks"].get(k)] if "tracks" in where else []
             rec.violation("state-changed", "reading the chart's public and derived attributes (end_tick, longest_sustain, "
                           f"last_note_end_timestamp, header_tag, ...) changed its stored data: sections {where} {tw[:3]}; "
-                          f"equality with the twin now {before[1:]}", {"text": text, "ops": [], "opseed": seed_key},
+                          f"equality with the twin now {before[1:3]}", {"text": text, "ops": [], "opseed": seed_key},
                           "state-changed-by:reading-derived-attributes")
             return
         import random
